@@ -55,6 +55,10 @@ pub fn decimal_strcmp(a: &str, b: &str) -> Option<Ordering> {
 /// * `b` - Second number string (digits only, no sign)
 /// * `b_neg` - Whether second number is negative
 pub fn decimal_strcmp_with_sign(a: &str, a_neg: bool, b: &str, b_neg: bool) -> Ordering {
+    // "-0" is zero: the sign of a zero magnitude does not take part in the comparison
+    let a_neg = a_neg && !is_zero_magnitude(a);
+    let b_neg = b_neg && !is_zero_magnitude(b);
+
     // Different signs: negative < positive
     match (a_neg, b_neg) {
         (true, false) => return Ordering::Less,
@@ -111,6 +115,10 @@ pub fn realnum_strcmp(a: &str, b: &str) -> Option<Ordering> {
 
 /// Compare two real number strings with pre-parsed signs
 pub fn realnum_strcmp_with_sign(a: &str, a_neg: bool, b: &str, b_neg: bool) -> Ordering {
+    // "-0.0" is zero: the sign of a zero magnitude does not take part in the comparison
+    let a_neg = a_neg && !is_zero_magnitude(a);
+    let b_neg = b_neg && !is_zero_magnitude(b);
+
     // Different signs: negative < positive
     match (a_neg, b_neg) {
         (true, false) => return Ordering::Less,
@@ -118,17 +126,12 @@ pub fn realnum_strcmp_with_sign(a: &str, a_neg: bool, b: &str, b_neg: bool) -> O
         _ => {}
     }
 
-    // Find decimal point positions
-    let a_dot = a.find('.').unwrap_or(a.len());
-    let b_dot = b.find('.').unwrap_or(b.len());
-
-    let cmp = if a_dot == b_dot {
-        // Same integer part length - lexicographic comparison works
-        a.cmp(b)
-    } else {
-        // Different integer part lengths - longer integer part is larger
-        a_dot.cmp(&b_dot)
-    };
+    // Integer parts compare as decimals (leading zeros ignored); fractions compare digit by
+    // digit once trailing zeros are dropped ("1.10" == "1.1", "1.0" == "1")
+    let (a_int, a_frac) = a.split_once('.').unwrap_or((a, ""));
+    let (b_int, b_frac) = b.split_once('.').unwrap_or((b, ""));
+    let cmp = compare_decimal_magnitude(a_int, b_int)
+        .then_with(|| a_frac.trim_end_matches('0').cmp(b_frac.trim_end_matches('0')));
 
     // For negative numbers, reverse the comparison
     if a_neg {
@@ -184,6 +187,11 @@ fn validate_realnum(s: &str) -> bool {
         }
     }
     true
+}
+
+// Helper: true if the (unsigned) digit string denotes zero
+fn is_zero_magnitude(s: &str) -> bool {
+    s.bytes().all(|c| c == b'0' || c == b'.')
 }
 
 // Helper: compare decimal magnitude (same-sign comparison)
